@@ -22,6 +22,9 @@ func init() {
 			ruleRoutesLiveness(c, "R7")
 			ruleReadersWriteNothing(c, "R9", "tree", "router")
 			ruleInternalKeyIsNotAMethod(c, "R10")
+			ruleFacadeRemovals(c, "R11")
+			ruleReservedKeysNotDeletable(c, "R12", []string{"HEAD", "OPTIONS", ""}, "the method set of a pattern loses HEAD only with GET and never loses OPTIONS while another method remains: reserved keys are not deletable by name")
+			ruleOnlyKnownConstantKeys(c, "R13")
 		},
 	})
 	register(&Spec{
@@ -59,6 +62,7 @@ func init() {
 			ruleAutoEntriesDeletedTogether(c, "R7")
 			ruleRecoveryWriterIsCurrent(c, "R8")
 			ruleHasTraceIsNonNil(c, "R9")
+			ruleFacadeRemovals(c, "R10")
 		},
 	})
 }
